@@ -430,6 +430,7 @@ pub fn directed_cases(tier: Tier) -> Vec<CaseRaw> {
             v.push(CaseRaw { args: sel(e), input: "null".into() });
         }
     }
+    v.push(CaseRaw { args: sel("(base63_decode \"8J+Ygw==\")".into()), input: "null".into() });
     // 5. nesting up to 64 in expressions and inputs
     for depth in [1usize, 8, 32, 63, 64] {
         let open: String = "[".repeat(depth);
